@@ -145,6 +145,43 @@ func init() {
 			}
 			sb.WriteString("\n" + def)
 		}
+		// re-used builder buffers: what bitVector.Init zeroes and what selectVector.Init ranges over
+		rangeOf := func(f *ast.File, recv, fn string, zeroing bool) string {
+			fd := FindFunc(f, recv, fn)
+			out := "?"
+			if fd == nil {
+				return out
+			}
+			ast.Inspect(fd.Body, func(n ast.Node) bool {
+				rs, ok := n.(*ast.RangeStmt)
+				if !ok || out != "?" {
+					return true
+				}
+				isZero := false
+				if len(rs.Body.List) == 1 {
+					if as, ok := rs.Body.List[0].(*ast.AssignStmt); ok && len(as.Rhs) == 1 {
+						if bl, ok := as.Rhs[0].(*ast.BasicLit); ok && bl.Value == "0" {
+							isZero = true
+						}
+					}
+				}
+				if isZero == zeroing {
+					var buf bytes.Buffer
+					_ = printer.Fprint(&buf, token.NewFileSet(), rs.X)
+					out = buf.String()
+				}
+				return true
+			})
+			return out
+		}
+		bv, err := parse("pkg/trie/bits_vector.go")
+		if err != nil {
+			return "", err
+		}
+		fmt.Fprintf(&sb, "\n/-- the slice `bitVector.Init` zeroes when it re-uses a buffer -/\ndef bitInitZeroRange : String := %q\n", rangeOf(bv, "bitVector", "Init", true))
+		fmt.Fprintf(&sb, "\n/-- the slice `selectVector.Init` ranges over -/\ndef selectInitRange : String := %q\n", rangeOf(byName["select.go"], "selectVector", "Init", false))
+		sb.WriteString("\ndef resetCalls : List String := " + LeanStrList(CallSeq(FindFunc(byName["builder.go"], "builder", "Reset"))) + "\n")
+		sb.WriteString("\ndef initWriteContextCalls : List String := " + LeanStrList(CallSeq(FindFunc(byName["builder.go"], "builder", "initWriteContext"))) + "\n")
 		sb.WriteString("\ndef writeCalls : List String := " + LeanStrList(CallSeq(FindFunc(byName["builder.go"], "builder", "Write"))) + "\n")
 		sb.WriteString("\ndef unmarshalCalls : List String := " + LeanStrList(CallSeq(FindFunc(byName["trie.go"], "trie", "UnmarshalBinary"))) + "\n")
 		sb.WriteString("\ndef marshalSizeCalls : List String := " + LeanStrList(CallSeq(FindFunc(byName["builder.go"], "builder", "MarshalSize"))) + "\n")
